@@ -387,6 +387,26 @@ def _cmp_bytes(sh, kind, got, want, case, tags):
     return same
 
 
+class _CallTimeout(Exception):
+    pass
+
+
+def _guarded(fn, secs=300):
+    """Run fn() under a generous wall-clock watchdog (a pool whose workers died waits
+    for ever).  Its firing is INCONCLUSIVE, never a verdict on the library."""
+    import signal
+
+    def handler(signum, frame):
+        raise _CallTimeout("no answer within %d s" % secs)
+    old = signal.signal(signal.SIGALRM, handler)
+    signal.alarm(secs)
+    try:
+        return fn()
+    finally:
+        signal.alarm(0)
+        signal.signal(signal.SIGALRM, old)
+
+
 def run_one(sh, srs, fdepsd, run):
     import numpy as np
     kind, LF = run["kind"], run["LF"]
@@ -430,7 +450,10 @@ def run_one(sh, srs, fdepsd, run):
             sh.count("mon:failure-propagates")
             sh.count("cell:serial-raises")
             try:
-                out = call(run.get("mode", "yes"))
+                out = _guarded(lambda: call(run.get("mode", "yes")))
+            except _CallTimeout:
+                sh.count("watchdog:parallel-call-timeout")
+                return
             except Exception as e2:
                 if type(e2) is not type(e):
                     sh.count("cell:failure-propagates-other-type")
@@ -455,7 +478,11 @@ def run_one(sh, srs, fdepsd, run):
     _CSA["filled"] = []
     t0 = time.monotonic()
     try:
-        par = call(run.get("mode", "yes"))
+        par = _guarded(lambda: call(run.get("mode", "yes")))
+    except _CallTimeout:
+        sh.case(desc, nontrivial=False, sample=case)
+        sh.count("watchdog:parallel-call-timeout")
+        return
     except Exception as e:
         sh.case(desc, nontrivial=True, sample=case)
         sh.violation("exception:parallel", case, {"exc": repr(e)[:400]}, tags)
@@ -579,7 +606,9 @@ def run_one(sh, srs, fdepsd, run):
         keep = run["sig"]
         run["sig"] = run2["sig"]
         try:
-            call(run.get("mode", "yes"))
+            _guarded(lambda: call(run.get("mode", "yes")))
+        except _CallTimeout:
+            sh.count("watchdog:parallel-call-timeout")
         except Exception as e:
             sh.violation("exception:parallel-second-call", case, {"exc": repr(e)[:400]},
                          tags)
@@ -656,6 +685,9 @@ def finalize(agg, tier):
     why = [f"coverage cell / monitor {k} never reached" for k in MANDATORY if not c.get(k)]
     if not any(k.startswith("peak-concurrency:") and int(k.split(":")[1]) >= 2 for k in c):
         why.append("no run with two workers busy at the same time was observed")
+    if c.get("watchdog:parallel-call-timeout"):
+        why.append("%d parallel call(s) gave no answer within the 300 s watchdog"
+                   % c["watchdog:parallel-call-timeout"])
     return why
 
 
